@@ -394,9 +394,11 @@ def judge(res, spec, ops, trace, shared=None, shared2=None, pair=False, nskip=1,
             elif not same_trace:
                 res['notes'].append(f"tier2 trace mismatch for {name}: inconclusive")
                 res['monitor']['tier2_trace_mismatch'] = res['monitor'].get('tier2_trace_mismatch', 0) + 1
-            elif e1 / max(e2, 1e-300) >= 1.3 and not openm and spec['n1'] <= 9:
-                # clearly shrinking but not yet at the asymptotic rate on these very
-                # coarse grids (6-9 points per period): judged on the next pair
+            elif not openm and spec['n1'] <= 9:
+                # not (yet) shrinking at the asymptotic rate on these very coarse grids
+                # (6-9 points per period; products of curvatures such as the Weyl
+                # invariants are not even monotonic there): judged on the next pair,
+                # where a stale or wrong-branch value still does not shrink at all
                 marginal.append((r, name, det, e2, sc))
             else:
                 common.add_violation(res, f"{name} differs from fresh instance", det)
